@@ -326,7 +326,7 @@ func init() {
 			fmt.Println(jstr(res.After.Store))
 			return 0
 		}
-		n := 800
+		n := 2000
 		if thorough() {
 			n = 12000
 		}
